@@ -102,6 +102,7 @@ var (
 	corruptBytes = []byte("\xff\xff\xff\xff\xff\xff\xff\xff\xff\xffthis is not a snappy block")
 	valuePalette [][]byte
 	valueNames   = []string{"empty", "1byte", "64KiB-compressible", "64KiB-random", "snappy-looking"}
+	backendKinds = []string{"mock", "instrumented", "erroring-nil"}
 	keyPalettes  = [][]string{
 		{"12@1@x", "x", "1@"},         // keys that contain the version prefixes of both views
 		{"a", "b", "c"},               // plain
@@ -123,12 +124,54 @@ func init() {
 		random,
 		snappy.Encode(nil, bytes.Repeat([]byte("the quick brown fox "), 40)),
 	}
+	// Enumerated short byte strings and boundary sizes for the snappy layer (every model value is mapped to several
+	// concrete byte strings, rotated by seed and behaviour number): all strings of length 1..2 over bytes that matter
+	// to the snappy block format (varint length prefix 0x00/0x01/0x7f/0x80/0xff, literal tag 0x00, copy tags
+	// 0x01/0x02/0x03, 60..63<<2 literal-length escapes 0xf0/0xf4/0xf8/0xfc), lengths around the literal-length
+	// escapes (59..61, 255..257), around the 64 KiB block size (65535..65537: 65537 needs two blocks), and around
+	// the minimum match length / hash-table input margins of the encoder (4, 15..17).
+	add := func(name string, b []byte) {
+		valuePalette = append(valuePalette, b)
+		valueNames = append(valueNames, name)
+	}
+	special := []byte{0x00, 0x01, 0x02, 0x03, 0x7f, 0x80, 0xf0, 0xf4, 0xf8, 0xfc, 0xff}
+	for _, x := range special {
+		if x != 0x00 {
+			add(fmt.Sprintf("byte-%02x", x), []byte{x})
+		}
+		for _, y := range special {
+			add(fmt.Sprintf("bytes-%02x%02x", x, y), []byte{x, y})
+		}
+	}
+	for _, n := range []int{3, 4, 15, 16, 17, 59, 60, 61, 255, 256, 257, 65535, 65536, 65537} {
+		add(fmt.Sprintf("%dB-random", n), random2(rnd, n))
+		add(fmt.Sprintf("%dB-run", n), bytes.Repeat([]byte{byte(n)}, n))
+		if n >= 15 {
+			half := random2(rnd, n/2)
+			add(fmt.Sprintf("%dB-repeat-half", n), append(append([]byte{}, half...), append(half, make([]byte, n-2*(n/2))...)...))
+		}
+	}
+	add("snappy-of-empty-twice", snappy.Encode(nil, snappy.Encode(nil, nil)))
+	add("truncated-snappy", snappy.Encode(nil, bytes.Repeat([]byte("xyz"), 100))[:7])
+	add("bad-varint", []byte{0xff, 0xff, 0xff, 0xff, 0xff, 0x0f})
+}
+
+func random2(rnd *rand.Rand, n int) []byte {
+	b := make([]byte, n)
+	rnd.Read(b)
+	return b
 }
 
 type concretiser struct {
 	vals map[string][]byte // model value -> bytes
 	keys map[string]string // model key -> concrete key
 	desc string
+	// rotated with the behaviour number as well: which in-process backend of cache/mock.go is underneath, whether the
+	// Snappy layers are made by NewCompression(CompressionConfig) instead of NewSnappy, whether the final sweep reads
+	// through GetMulti instead of GetMultiWithError
+	backend    string
+	viaConfig  bool
+	plainSweep bool
 }
 
 // newConcretiser maps the model's values and keys to concrete ones; n selects the combination so that
@@ -136,7 +179,7 @@ type concretiser struct {
 func newConcretiser(n int) *concretiser {
 	c := &concretiser{vals: map[string][]byte{"corrupt": corruptBytes}, keys: map[string]string{}}
 	np := len(valuePalette)
-	off, stride := n%np, 1+(n/np)%(np-1)
+	off, stride := (n*7)%np, 1+(n/np)%(np-1)
 	names := []string{}
 	for i, mv := range []string{"a", "b", "c"} {
 		idx := (off + i*stride) % np
@@ -153,11 +196,14 @@ func newConcretiser(n int) *concretiser {
 		c.vals[mv] = valuePalette[idx]
 		names = append(names, valueNames[idx])
 	}
+	c.backend = backendKinds[(n/3)%len(backendKinds)]
+	c.viaConfig = (n/2)%2 == 1
+	c.plainSweep = n%2 == 1
 	kp := keyPalettes[(n/7)%len(keyPalettes)]
 	for i, mk := range []string{"k1", "k2", "k3"} {
 		c.keys[mk] = kp[i]
 	}
-	c.desc = fmt.Sprintf("values a,b,c=%s keys k1,k2,k3=%q", strings.Join(names, ","), kp)
+	c.desc = fmt.Sprintf("values a,b,c=%s keys k1,k2,k3=%q backend=%s snappy-via-config=%v", strings.Join(names, ","), kp, c.backend, c.viaConfig)
 	return c
 }
 
@@ -174,45 +220,82 @@ func (c *concretiser) physical(ver int, k string) string {
 // faultyBackend is the mock backend with a switch: while failing is set every call returns errBackend
 // and does nothing (SetAsync / SetMultiAsync drop the write silently, as a failed asynchronous write does).
 type faultyBackend struct {
-	*cache.MockCache
+	mockBackend
 	failing bool
+	// observations: how many calls reached the backend, how many of them were Stop, options of the latest read
+	calls, stops, lastOpts int
+}
+
+// mockBackend is what the in-process backends of cache/mock.go have in common (MockCache, InstrumentedMockCache,
+// ErroringMockCache with a nil error).
+type mockBackend interface {
+	cache.Cache
+	Advance(d time.Duration)
+	GetItems() map[string]cache.Item
+	Flush()
+}
+
+func newMockBackend(kind string) mockBackend {
+	switch kind {
+	case "instrumented":
+		return cache.NewInstrumentedMockCache()
+	case "erroring-nil":
+		return cache.NewErroringMockCache(nil)
+	}
+	return cache.NewMockCache()
+}
+
+func (f *faultyBackend) Stop() {
+	f.calls++
+	f.stops++
+	f.mockBackend.Stop()
 }
 
 var errBackend = errors.New("c19: injected backend failure")
 
 func (f *faultyBackend) SetAsync(key string, value []byte, ttl time.Duration) {
+	f.calls++
 	if !f.failing {
-		f.MockCache.SetAsync(key, value, ttl)
+		f.mockBackend.SetAsync(key, value, ttl)
 	}
 }
 func (f *faultyBackend) SetMultiAsync(data map[string][]byte, ttl time.Duration) {
+	f.calls++
 	if !f.failing {
-		f.MockCache.SetMultiAsync(data, ttl)
+		f.mockBackend.SetMultiAsync(data, ttl)
 	}
 }
 func (f *faultyBackend) Set(ctx context.Context, key string, value []byte, ttl time.Duration) error {
+	f.calls++
 	if f.failing {
 		return errBackend
 	}
-	return f.MockCache.Set(ctx, key, value, ttl)
+	return f.mockBackend.Set(ctx, key, value, ttl)
 }
 func (f *faultyBackend) Add(ctx context.Context, key string, value []byte, ttl time.Duration) error {
+	f.calls++
 	if f.failing {
 		return errBackend
 	}
-	return f.MockCache.Add(ctx, key, value, ttl)
+	return f.mockBackend.Add(ctx, key, value, ttl)
 }
 func (f *faultyBackend) Delete(ctx context.Context, key string) error {
+	f.calls++
 	if f.failing {
 		return errBackend
 	}
-	return f.MockCache.Delete(ctx, key)
+	return f.mockBackend.Delete(ctx, key)
 }
 func (f *faultyBackend) GetMultiWithError(ctx context.Context, keys []string, opts ...cache.Option) (map[string][]byte, error) {
+	f.calls++
+	f.lastOpts = len(opts)
 	if f.failing {
 		return map[string][]byte{}, errBackend
 	}
-	return f.MockCache.GetMultiWithError(ctx, keys, opts...)
+	if f.calls%2 == 0 { // GetMulti and GetMultiWithError of the in-process backends are the same read
+		return f.mockBackend.GetMulti(ctx, keys, opts...), nil
+	}
+	return f.mockBackend.GetMultiWithError(ctx, keys, opts...)
 }
 func (f *faultyBackend) GetMulti(ctx context.Context, keys []string, opts ...cache.Option) map[string][]byte {
 	r, _ := f.GetMultiWithError(ctx, keys, opts...)
@@ -220,7 +303,7 @@ func (f *faultyBackend) GetMulti(ctx context.Context, keys []string, opts ...cac
 }
 
 type realStack struct {
-	mock    *cache.MockCache
+	mock    mockBackend
 	backend *faultyBackend
 	views   map[int]cache.Cache
 }
@@ -234,11 +317,30 @@ func hasKind(stack []string, k string) bool {
 	return false
 }
 
-func wrap(kind string, below cache.Cache, b *behaviour, view int) (cache.Cache, error) {
+func wrap(kind string, below cache.Cache, b *behaviour, view int, c *concretiser) (cache.Cache, error) {
 	switch kind {
 	case "lru":
+		// a capacity that cannot hold anything is refused (and no wrapper is handed out)
+		if bad, err := cache.WrapWithLRUCache(below, "c19", nil, 0, time.Second, log.NewNopLogger()); err == nil || bad != nil {
+			return nil, fmt.Errorf("WrapWithLRUCache accepted capacity 0")
+		}
 		return cache.WrapWithLRUCache(below, "c19", nil, b.Cap, time.Duration(b.DTTL)*time.Second, log.NewNopLogger())
 	case "snappy":
+		if c != nil && c.viaConfig {
+			cfg := cache.CompressionConfig{Compression: cache.CompressionSnappy}
+			if err := cfg.Validate(); err != nil {
+				return nil, fmt.Errorf("CompressionConfig{snappy}.Validate: %v", err)
+			}
+			if (&cache.CompressionConfig{Compression: "gzip"}).Validate() == nil {
+				return nil, fmt.Errorf("CompressionConfig{gzip}.Validate accepted an unsupported compression")
+			}
+			// compression switched off is the identity wrapper: the stack below is handed back
+			off := cache.CompressionConfig{}
+			if err := off.Validate(); err != nil || cache.NewCompression(off, below, log.NewNopLogger()) != below {
+				return nil, fmt.Errorf("NewCompression with compression off is not the identity")
+			}
+			return cache.NewCompression(cfg, below, log.NewNopLogger()), nil
+		}
 		return cache.NewSnappy(below, log.NewNopLogger()), nil
 	case "ver":
 		return cache.NewVersioned(below, versions[view], log.NewNopLogger()), nil
@@ -248,9 +350,10 @@ func wrap(kind string, below cache.Cache, b *behaviour, view int) (cache.Cache, 
 
 // build stacks b.Stack (top first) over a fresh mock: layers below the Versioned layer are shared by
 // the views, the Versioned layer and everything above exist once per view.
-func build(b *behaviour, nviews int) (*realStack, error) {
-	rs := &realStack{mock: cache.NewMockCache(), views: map[int]cache.Cache{}}
-	rs.backend = &faultyBackend{MockCache: rs.mock}
+func build(b *behaviour, nviews int, cz *concretiser) (*realStack, error) {
+	c := cz
+	rs := &realStack{mock: newMockBackend(c.backend), views: map[int]cache.Cache{}}
+	rs.backend = &faultyBackend{mockBackend: rs.mock}
 	verPos := -1
 	for i, k := range b.Stack {
 		if k == "ver" {
@@ -260,7 +363,7 @@ func build(b *behaviour, nviews int) (*realStack, error) {
 	var shared cache.Cache = rs.backend
 	var err error
 	for i := len(b.Stack) - 1; i > verPos; i-- {
-		if shared, err = wrap(b.Stack[i], shared, b, 0); err != nil {
+		if shared, err = wrap(b.Stack[i], shared, b, 0, c); err != nil {
 			return nil, err
 		}
 	}
@@ -271,7 +374,7 @@ func build(b *behaviour, nviews int) (*realStack, error) {
 	for w := 1; w <= nviews; w++ {
 		c := shared
 		for i := verPos; i >= 0; i-- {
-			if c, err = wrap(b.Stack[i], c, b, w); err != nil {
+			if c, err = wrap(b.Stack[i], c, b, w, cz); err != nil {
 				return nil, err
 			}
 		}
@@ -392,9 +495,20 @@ func compareBackend(c *concretiser, rs *realStack, want []bkEntry) (string, any,
 // Must be called inside a synctest bubble.
 func execute(cands []*behaviour, c *concretiser, nviews int) (survivor int, last *diff, lastIdx int, fatal error) {
 	b := cands[0]
-	rs, err := build(b, nviews)
+	rs, err := build(b, nviews, c)
 	if err != nil {
 		return -1, nil, 0, err
+	}
+	// Name(): Versioned and Snappy hand down the name of what they wrap, the top-most LRU layer names itself
+	wantName := "mock"
+	if hasKind(b.Stack, "lru") {
+		wantName = "in-memory-c19"
+	}
+	for w, v := range rs.views {
+		if got := v.Name(); got != wantName {
+			return -1, &diff{step: 0, what: "name", got: got, want: wantName}, 0, nil
+		}
+		_ = w
 	}
 	alive := make([]bool, len(cands))
 	for i := range alive {
@@ -424,6 +538,12 @@ func execute(cands []*behaviour, c *concretiser, nviews int) (survivor int, last
 		var getRes map[string][]byte
 		panicked := ""
 		rs.backend.failing = s.Fail
+		calls0, stops0 := rs.backend.calls, rs.backend.stops
+		// read options (an allocator) are handed to every read on odd steps and must arrive at the backend
+		var opts []cache.Option
+		if i%2 == 1 {
+			opts = []cache.Option{cache.WithAllocator(nopAllocator{}), cache.WithAllocator(nopAllocator{})}
+		}
 		func() {
 			defer func() {
 				rs.backend.failing = false
@@ -449,7 +569,15 @@ func execute(cands []*behaviour, c *concretiser, nviews int) (survivor int, last
 				for j, k := range s.Keys {
 					keys[j] = c.keys[k]
 				}
-				getRes, opErr = top.GetMultiWithError(ctx, keys)
+				getRes, opErr = top.GetMultiWithError(ctx, keys, opts...)
+			case "getplain":
+				keys := make([]string, len(s.Keys))
+				for j, k := range s.Keys {
+					keys[j] = c.keys[k]
+				}
+				getRes = top.GetMulti(ctx, keys, opts...)
+			case "stop":
+				top.Stop()
 			case "delete":
 				opErr = top.Delete(ctx, c.keys[s.Keys[0]])
 			case "advance":
@@ -493,8 +621,20 @@ func execute(cands []*behaviour, c *concretiser, nviews int) (survivor int, last
 				}
 			case s.Name == "get":
 				what, got, want = compareGet(c, s.Keys, e.Rep.Found, e.Rep.Err, getRes, opErr)
+			case s.Name == "getplain": // GetMulti has no error to return (it is logged)
+				what, got, want = compareGet(c, s.Keys, e.Rep.Found, false, getRes, nil)
+				if what != "" {
+					what = "plain-" + what
+				}
+			case s.Name == "stop":
+				if n := rs.backend.stops - stops0; n != 1 {
+					what, got, want = "stop:not-handed-down-once", n, 1
+				}
 			case (opErr != nil) != e.Rep.Err:
 				what, got, want = s.Name+":error", fmt.Sprint(opErr), e.Rep.Err
+			}
+			if what == "" && (s.Name == "get" || s.Name == "getplain") && rs.backend.calls > calls0 && rs.backend.lastOpts != len(opts) {
+				what, got, want = s.Name+":options-not-handed-down", rs.backend.lastOpts, len(opts)
 			}
 			if what == "" {
 				what, got, want = compareBackend(c, rs, e.Bk)
@@ -514,13 +654,19 @@ func execute(cands []*behaviour, c *concretiser, nviews int) (survivor int, last
 		var res map[string][]byte
 		var err error
 		panicked := ""
+		plain := false
 		func() {
 			defer func() {
 				if r := recover(); r != nil {
 					panicked = fmt.Sprint(r)
 				}
 			}()
-			res, err = rs.views[e0.W].GetMultiWithError(ctx, []string{c.keys[e0.K]})
+			if c.plainSweep && i%2 == 0 {
+				res = rs.views[e0.W].GetMulti(ctx, []string{c.keys[e0.K]})
+				plain = true
+			} else {
+				res, err = rs.views[e0.W].GetMultiWithError(ctx, []string{c.keys[e0.K]})
+			}
 		}()
 		for ci, cand := range cands {
 			if !alive[ci] {
@@ -536,7 +682,7 @@ func execute(cands []*behaviour, c *concretiser, nviews int) (survivor int, last
 				if e.V != "none" {
 					wantM[e.K] = e.V
 				}
-				what, got, want = compareGet(c, []string{e.K}, wantM, e.Err, res, err)
+				what, got, want = compareGet(c, []string{e.K}, wantM, e.Err && !plain, res, err)
 			}
 			if what != "" {
 				kill(ci, &diff{step: len(b.Steps) + i, what: "sweep:" + what, got: got, want: want})
@@ -553,6 +699,11 @@ func execute(cands []*behaviour, c *concretiser, nviews int) (survivor int, last
 	}
 	return -1, last, lastIdx, nil
 }
+
+type nopAllocator struct{}
+
+func (nopAllocator) Get(sz int) *[]byte { b := make([]byte, 0, sz); return &b }
+func (nopAllocator) Put(*[]byte)        {}
 
 // sameOps: all candidates of a script must have the same operations (they come from the same script).
 func sameOps(a, b *behaviour) bool {
@@ -591,7 +742,7 @@ func nontrivial(b *behaviour) bool {
 			} else {
 				neg = true
 			}
-		case "get":
+		case "get", "getplain":
 			if len(s.Rep.Found) > 0 {
 				hit = true
 			}
@@ -834,6 +985,15 @@ type placementEvent struct {
 	Order    string `json:"order,omitempty"`
 }
 
+// seqEvent: a pick event of the SetServers sequences (empty lists are written as [], not left out)
+type seqEvent struct {
+	T        string `json:"t"`
+	Servers  []int  `json:"servers"`
+	Internal []int  `json:"internal"`
+	Picks    []int  `json:"picks"`
+	Order    string `json:"order"`
+}
+
 // TestPlacement: VERIF_TRACE = output file, VERIF_CHAINS universes of VERIF_MAXN+1 servers, VERIF_NKEYS
 // random keys each. For n = 1..MAXN+1 the n naturally-first servers are given to fresh selectors in several
 // input orders (naturally sorted, byte-wise sorted, reversed, rotated, shuffled); the first selector is asked twice.
@@ -857,7 +1017,7 @@ func TestPlacement(t *testing.T) {
 		w.Close()
 		res.Write(t)
 	}
-	picksTotal, moved := 0, 0
+	picksTotal, moved, seqEvents := 0, 0, 0
 	for c := 0; c < chains; c++ {
 		nf := nameFormats[(c+int(abs.Seed()))%len(nameFormats)]
 		// a universe of maxN+1 distinct numbers; small ones are forced in so that 1-, 2- and 3-digit
@@ -976,6 +1136,136 @@ func TestPlacement(t *testing.T) {
 				}
 			}
 		}
+		// SetServers SEQUENCES on one long-lived selector (the universe is fully known to the validator by now):
+		// grow, shrink (also from the middle), reorder, names listed several times, one / two / no servers; before
+		// every other step a SetServers that cannot be resolved, which must change nothing; Each stops at the first error.
+		psel := &cache.MemcachedJumpHashSelector{}
+		eachOf := func() []int {
+			out := []int{}
+			_ = psel.Each(func(a net.Addr) error {
+				out = append(out, byName[a.String()])
+				return nil
+			})
+			return out
+		}
+		recordSeq := func(given []int, kind string) error {
+			picks := make([]int, nkeys)
+			for i, k := range keys {
+				a, err := psel.PickServer(k)
+				switch {
+				case err != nil && a == nil:
+					picks[i] = 0
+				case err != nil:
+					picks[i] = -1
+				default:
+					m, ok := byName[a.String()]
+					if !ok {
+						m = -1
+					}
+					picks[i] = m
+				}
+			}
+			picksTotal += nkeys
+			res.Cases++
+			if len(given) > 1 {
+				res.Nontrivial++
+			}
+			seqEvents++
+			return w.Write(seqEvent{T: "pick", Servers: append([]int{}, given...), Internal: eachOf(), Picks: picks, Order: "sequence:" + kind})
+		}
+		if err := recordSeq(nil, "never-set"); err != nil {
+			fail(err)
+			return
+		}
+		cur := []int{}
+		kinds := []string{"grow", "duplicates", "shrink-middle", "reorder", "pair", "grow", "empty", "single", "subset", "duplicates", "shrink-prefix", "grow"}
+		nsteps := len(kinds)
+		if abs.Tier() == "thorough" {
+			nsteps = 4 * len(kinds)
+		}
+		for st := 0; st < nsteps; st++ {
+			kind := kinds[(st+c)%len(kinds)]
+			given := append([]int{}, cur...)
+			switch kind {
+			case "grow":
+				for _, j := range rnd.Perm(len(univ))[:1+rnd.Intn(8)] {
+					if indexIn(given, univ[j]) < 0 && len(given) < len(univ) {
+						given = append(given, univ[j])
+					}
+				}
+			case "duplicates":
+				if len(given) == 0 {
+					given = append(given, univ[rnd.Intn(len(univ))], univ[rnd.Intn(len(univ))])
+				}
+				for d := 1 + rnd.Intn(3); d > 0 && len(given) < len(univ); d-- {
+					given = append(given, given[rnd.Intn(len(given))])
+				}
+				rnd.Shuffle(len(given), func(i, j int) { given[i], given[j] = given[j], given[i] })
+			case "shrink-middle":
+				for d := 1 + rnd.Intn(3); d > 0 && len(given) > 1; d-- {
+					j := rnd.Intn(len(given))
+					given = append(given[:j], given[j+1:]...)
+				}
+			case "shrink-prefix":
+				sort.Ints(given)
+				given = given[:len(given)/2]
+			case "reorder":
+				rnd.Shuffle(len(given), func(i, j int) { given[i], given[j] = given[j], given[i] })
+			case "pair":
+				p := rnd.Perm(len(univ))
+				given = []int{univ[p[0]], univ[p[1]]}
+			case "single":
+				given = []int{univ[rnd.Intn(len(univ))]}
+			case "empty":
+				given = []int{}
+			case "subset":
+				given = given[:0]
+				for _, j := range rnd.Perm(len(univ))[:2+rnd.Intn(len(univ)-2)] {
+					given = append(given, univ[j])
+				}
+			}
+			names := make([]string, len(given))
+			for i, m := range given {
+				names[i] = nf.f(m)
+			}
+			if st%2 == 0 {
+				before := eachOf()
+				bad := append(append([]string{}, names...), "")
+				j := rnd.Intn(len(bad))
+				copy(bad[j+1:], bad[j:])
+				bad[j] = "127.0.0.1" // no port (and no "/"): cannot be resolved, no DNS involved
+				if err := psel.SetServers(bad...); err == nil {
+					res.Mismatch(abs.Mismatch{Sig: "placement:SetServers accepted an unresolvable name", Case: map[string]any{"servers": bad}, Got: "nil", Want: "an error"})
+				}
+				if after := eachOf(); fmt.Sprint(after) != fmt.Sprint(before) {
+					res.Mismatch(abs.Mismatch{Sig: "placement:failed SetServers changed the server list", Case: map[string]any{"servers": bad, "format": nf.name}, Got: after, Want: before})
+				}
+			}
+			if err := psel.SetServers(names...); err != nil {
+				fail(fmt.Errorf("SetServers(%v): %w", names, err))
+				return
+			}
+			if err := recordSeq(given, kind); err != nil {
+				fail(err)
+				return
+			}
+			// Each: stops at the first error and returns it
+			if len(given) > 0 {
+				stopAt, calls := 1+rnd.Intn(len(given)), 0
+				errStop := errors.New("stop")
+				got := psel.Each(func(net.Addr) error {
+					calls++
+					if calls == stopAt {
+						return errStop
+					}
+					return nil
+				})
+				if got != errStop || calls != stopAt {
+					res.Mismatch(abs.Mismatch{Sig: "placement:Each does not stop at the first error", Case: map[string]any{"servers": len(given), "stop_at": stopAt}, Got: map[string]any{"calls": calls, "err": fmt.Sprint(got)}, Want: "stop"})
+				}
+			}
+			cur = given
+		}
 		res.Sample(map[string]any{"format": nf.name, "servers": []string{nf.f(univ[0]), nf.f(univ[1]), "...", nf.f(univ[len(univ)-1])}, "keys": nkeys})
 	}
 	if err := w.Close(); err != nil {
@@ -983,7 +1273,17 @@ func TestPlacement(t *testing.T) {
 	}
 	res.AddExtra("picks_recorded", picksTotal)
 	res.AddExtra("picks_moved_by_append", moved)
+	res.AddExtra("setservers_sequence_events", seqEvents)
 	res.Write(t)
+}
+
+func indexIn(s []int, v int) int {
+	for i, x := range s {
+		if x == v {
+			return i
+		}
+	}
+	return -1
 }
 
 func indexOf(s []int, v int) int {
@@ -1005,7 +1305,7 @@ func TestFindingFailedSet(t *testing.T) {
 	synctest.Test(t, func(t *testing.T) {
 		ctx := context.Background()
 		mock := cache.NewMockCache()
-		be := &faultyBackend{MockCache: mock}
+		be := &faultyBackend{mockBackend: mock}
 		lru, err := cache.WrapWithLRUCache(be, "f", nil, 10, time.Hour, log.NewNopLogger())
 		if err != nil {
 			t.Fatal(err)
